@@ -102,11 +102,13 @@ Definition position (s : state) : Z * name :=
         end
     end in (snd rl, fst rl).
 
-(* _notify_server_of_parent (raises without a session before anything is sent) *)
+(* _notify_server_of_parent (raises without a session before anything is sent).  The order of the
+   three messages ([server_advert_order]) and the parent-search flag ([parent_search_flag]) are generated. *)
 Definition tell_server (s : state) : state :=
   if session s then
-    let v := position s in let b := is_none (parent s) in
-    emit [OSrv (SLevel (fst v)); OSrv (SRoot (snd v)); OSrv (SSearch b)]
+    let v := position s in let b := parent_search_flag (negb (is_none (parent s))) in
+    emit (map (fun f => OSrv (match f with AF_level => SLevel (fst v) | AF_root => SRoot (snd v) | AF_search => SSearch b end))
+              server_advert_order)
          (set_told_server (Some (fst v, snd v, b)) s)
   else s.
 
@@ -134,7 +136,7 @@ Definition on_closed (c : conn) (s : state) : state :=
     if session s1 then
       let s2 := tell_server s1 in
       if held s2 then push (KUnset c) s2
-      else finish_close c (tell_children (0, me) s2)
+      else finish_close c (tell_children (unset_children_level, me) s2)
     else finish_close c s1
   else finish_close c s.
 
@@ -248,7 +250,7 @@ Definition reset (s : state) : state :=
 Definition run_cont (s : state) (k : cont) : state :=
   match k with
   | KSet => notify_children s
-  | KUnset c => finish_close c (tell_children (0, me) s)
+  | KUnset c => finish_close c (tell_children (unset_children_level, me) s)
   end.
 
 Definition release (s : state) : state := fold_left run_cont (pend s) (set_pend [] (set_held false s)).
@@ -256,7 +258,8 @@ Definition release (s : state) : state := fold_left run_cont (pend s) (set_pend 
 Definition step (s0 : state) (e : event) : state :=
   let s := set_outs [] s0 in
   match e with
-  | SessionInit => tell_server (set_session true s)
+  | SessionInit => let s1 := set_session true s in
+                   if session_init_readvertises then advertise s1 else tell_server s1
   | SessionDestroyed => set_session false s
   | ServerClosed => set_pratio None (set_pmin None s)
   | PotentialParents ns => set_cands (lastn POTENTIAL_PARENTS_CACHE_SIZE (cands s ++ ns)) s
@@ -283,6 +286,27 @@ Fixpoint trace (s : state) (evs : list event) : list state :=
   | [] => []
   | e :: r => let s' := step s e in s' :: trace s' r
   end.
+
+(* ---------------------------------------------------------------- shape of the hand-modelled handlers *)
+(* The effect lists (in source order) from which the handlers above were written:
+     do_set_parent   = set the parent, (cancel connect tasks), close every other distributed connection,
+                       server told (suspension point), children told              -> [advertise]
+     on_closed       = _on_state_changed(CLOSED): unset if parent; remove from children; remove from peers
+       _unset_parent = parent := None; nothing more without a session; server told (suspension point);
+                       level [unset_children_level] / own name to the children
+     SessionInit     = session set; server told          SessionDestroyed = session cleared
+     reset           = children disconnected, then the parent
+   The translator regenerates the same lists from the source; C13_model_follows_source compares them. *)
+Definition model_set_parent_effects : list eff :=
+  [E_set_parent_peer; E_await_cancel_tasks; E_close_other_connections; E_notify_server; E_notify_children].
+Definition model_unset_parent_effects : list eff :=
+  [E_set_parent_none; E_return_if_no_session; E_read_username; E_notify_server; E_tell_children_level_root].
+Definition model_closed_handler_effects : list eff := [E_unset_if_parent; E_remove_if_child; E_remove_peer].
+Definition model_session_init_effects : list eff :=
+  if session_init_readvertises then [E_set_session; E_notify_server; E_notify_children] else [E_set_session; E_notify_server].
+Definition model_session_destroyed_effects : list eff := [E_clear_session].
+Definition model_reset_effects : list eff := [E_disconnect_children; E_disconnect_parent].
+Definition model_remove_child_effects : list eff := [E_children_remove].
 
 (* ---------------------------------------------------------------- property vocabulary *)
 Definition lookup_told (c : conn) (s : state) : option (Z * name) :=
@@ -371,5 +395,8 @@ Definition tree_inv_b (s : state) : bool :=
 (* what the server / a child was last told is the position derived from the current parent *)
 Definition server_truthful (s : state) : Prop :=
   session s = true -> told_server s = Some (fst (position s), snd (position s), is_none (parent s)).
+(* the same while a session exists (nothing can be told without one: the own name is unknown) *)
+Definition children_truthful_in_session (s : state) : Prop :=
+  session s = true -> forall c, In c (children s) -> live c s = true -> lookup_told c s = Some (position s).
 Definition children_truthful (s : state) : Prop :=
   forall c, In c (children s) -> live c s = true -> lookup_told c s = Some (position s).
